@@ -127,6 +127,37 @@ class Mon:
 
         m.attach_path(crv, "Intersection", "lines", post=post_lines, label="Intersection.lines")
 
+        # ---- what the segment-level intersection hands on (the parameters the curves are split at) ----
+        def post_and(token, args, kwargs, result, exc):
+            if exc is not None or not result:
+                return
+            ca, cb = args[0], args[1]
+            try:
+                if len(ca.ctrlpoints) != 2 or len(cb.ctrlpoints) != 2:
+                    return
+                raw = [v for c in (ca, cb) for p in c.ctrlpoints for v in (p[0], p[1])]
+            except Exception:
+                return
+            if not all(is_rational(v) and wellformed(v) for v in raw):
+                return
+            a = S.snap_segment(ca)
+            b = S.snap_segment(cb)
+            res = O.seg_seg(a[0], a[1], b[0], b[1])
+            if res[0] not in ("proper", "touch"):
+                return
+            case.count("PlanarCurve.__and__:checked")
+            for pair in result:
+                try:
+                    t, s = pair
+                except Exception:
+                    continue
+                if not (is_rational(t) and is_rational(s)):
+                    case.violate("segment & segment gives non-rational parameters %r %r for rational straight segments" % (t, s))
+                elif (Fr(t), Fr(s)) != (res[1], res[2]):
+                    case.violate("segment & segment gives the parameters (%s, %s), the exact crossing is at (%s, %s)" % (t, s, res[1], res[2]))
+
+        m.attach_path(crv, "PlanarCurve", "__and__", post=post_and, label="PlanarCurve.__and__")
+
         # ---- split of a rational polygon ---------------------------------------------
         def pre_split(args, kwargs):
             jordan = args[0]
